@@ -50,7 +50,7 @@ mod h {
     /// N matrices of one profile (1x1, so the data index is 0) supplied in ARBITRARY order with distinct integer timestamps;
     /// query at an arbitrary integer-valued time. Expected values are computed from the set of (timestamp, value) pairs
     /// alone, exactly as the property states them.
-    fn lookup<const N: usize>() {
+    fn lookup<const N: usize>(between: bool) {
         let stamps: [Float; N] = core::array::from_fn(|_| ts());
         let durs: [Float; N] = core::array::from_fn(|_| val());
         let dists: [Float; N] = core::array::from_fn(|_| val());
@@ -61,6 +61,9 @@ mod h {
         let scale: Float = if kani::any() { 1. } else { 2. };
         let profile = Profile { index: 0, scale };
         let t = ts();
+        // float division (the interpolation) is what CBMC is slow on: the "between two matrices" case is a harness of its own
+        let strictly_between = { let (mut below, mut above, mut at) = (false, false, false); let mut i = 0; while i < N { below = below || stamps[i] < t; above = above || stamps[i] > t; at = at || stamps[i] == t; i += 1; } below && above && !at };
+        kani::assume(strictly_between == between);
         let tt = if kani::any() { TravelTime::Departure(t) } else { TravelTime::Arrival(t) };
         let (dur, dist) = (c.interpolate_duration(&profile, 0, 0, tt), c.interpolate_distance(&profile, 0, 0, tt));
         // bracketing matrices: the latest one at or before t, the earliest one after t
@@ -84,12 +87,12 @@ mod h {
             }
             (None, None) => {}
         }
-        kani::cover!(lo.is_some() && hi.is_some() && stamps[lo.unwrap()] < t);
-        kani::cover!(lo.is_none());
-        kani::cover!(hi.is_none());
+        if between { kani::cover!(lo.is_some() && hi.is_some()); } else { kani::cover!(lo.is_none()); kani::cover!(hi.is_none()); kani::cover!(lo.is_some() && stamps[lo.unwrap()] == t && hi.is_some()); }
     }
-    #[kani::proof] #[kani::unwind(6)] fn time_aware_lookup_2() { lookup::<2>() }
-    #[kani::proof] #[kani::unwind(7)] fn time_aware_lookup_3() { lookup::<3>() }
+    #[kani::proof] #[kani::unwind(6)] fn time_aware_lookup_at_or_outside_2() { lookup::<2>(false) }
+    #[kani::proof] #[kani::unwind(7)] fn time_aware_lookup_at_or_outside_3() { lookup::<3>(false) }
+    #[kani::proof] #[kani::unwind(6)] fn time_aware_lookup_between_2() { lookup::<2>(true) }
+    #[kani::proof] #[kani::unwind(7)] fn time_aware_lookup_between_3() { lookup::<3>(true) }
 
     /// constructor rejections: a matrix without timestamp, a profile with a single matrix
     #[kani::proof] #[kani::unwind(6)]
